@@ -37,7 +37,9 @@ def conversion(case, d):
     out = os.path.join(d, "o.sgz")
     rate, bs = case["setting"][0], tuple(case["setting"][1])
     if case["route"] == "numpy":
-        data = gen.make_values(tuple(case["shape"]), "gauss", 5)
+        # (the reference is always made from the C-contiguous array; the run under test may get the same values
+        # as a Fortran-ordered array, a window into a larger one, every other sample of a longer one)
+        data = gen.as_layout(gen.make_values(tuple(case["shape"]), "gauss", 5), case.get("mem"))
         return (lambda: conv.numpy_convert(data, out, rate, bs)), out
     key = (case["route"], tuple(case["shape"]))
     path = os.path.join(d, f"in_{case['route']}_{'_'.join(map(str, case['shape']))}.sgy")
@@ -116,6 +118,7 @@ def reference(case, d):
     against an unscheduled run with real threads."""
     key = repr((case["route"], case["shape"], case["setting"], case.get("mode")))
     if key not in _ref_cache:
+        case = dict(case, mem=None)
         S, log, data, err, leftover, queues = scheduled(dict(case, cap=1), d, [], policy="downstream")
         if err is not None or data is None:
             raise Violation("sequential-execution-fails", f"{case['route']} {case['shape']} {case['setting']}: {err!r}")
@@ -192,7 +195,8 @@ def cases(draw):
     shape, setting = draw(st.sampled_from(CONFIGS[route]))
     return {"route": route, "shape": list(shape), "setting": [setting[0], list(setting[1])],
             "cap": draw(st.sampled_from([1, 2, 16])), "mode": draw(st.sampled_from(["heuristic", "thorough", "strip"])),
-            "choices": draw(st.lists(st.integers(0, 2), min_size=0, max_size=120))}
+            "choices": draw(st.lists(st.integers(0, 2), min_size=0, max_size=120)),
+            **({"mem": draw(st.sampled_from(gen.MEM_LAYOUTS))} if route == "numpy" else {})}
 
 
 def run_case(case, ctx):
